@@ -213,7 +213,7 @@ std::string plan_to_text(const Plan &p) {
     for (auto &n : p.nodes)
         s << "node glue=" << n.glue << " mtu=" << n.mtu << " attr_seed=" << n.attr_seed << " wifi=" << (n.wifi ? 1 : 0) << " failmask=" << n.failmask
           << " esp32=" << (n.side_esp32 ? 1 : 0) << " classifier=" << (n.side_classifier ? 1 : 0) << " rxfill=" << (int)n.rxfill
-          << " proc_us=" << n.proc_us << " tick_jitter=" << n.tick_jitter << "\n";
+          << " proc_us=" << n.proc_us << " tick_jitter=" << n.tick_jitter << (n.null_ctx ? " nullctx=1" : "") << "\n";
     for (auto &o : p.ops) s << op_to_text(o) << "\n";
     s << "end\n";
     return s.str();
@@ -263,7 +263,7 @@ bool plan_from_text(const std::string &text, Plan &p, std::string &err) {
             n.attr_seed = strtoull(m["attr_seed"].c_str(), 0, 10); n.wifi = m["wifi"] == "1";
             n.failmask = (uint32_t)strtoul(m["failmask"].c_str(), 0, 10); n.side_esp32 = m["esp32"] == "1";
             n.side_classifier = m["classifier"] == "1"; n.rxfill = (uint8_t)atoi(m["rxfill"].c_str());
-            n.proc_us = (uint32_t)strtoul(m["proc_us"].c_str(), 0, 10); n.tick_jitter = (uint32_t)strtoul(m["tick_jitter"].c_str(), 0, 10);
+            n.proc_us = (uint32_t)strtoul(m["proc_us"].c_str(), 0, 10); n.tick_jitter = (uint32_t)strtoul(m["tick_jitter"].c_str(), 0, 10); n.null_ctx = m.count("nullctx") && m["nullctx"] == "1";
             p.nodes.push_back(n);
         } else if (key == "op") {
             std::string name;
@@ -305,7 +305,7 @@ bool plan_from_text(const std::string &text, Plan &p, std::string &err) {
 
 // ============================================================ port (lltdPort.h)
 static Node *node_of_ctx(void *ctx) {
-    if (!g_w || !ctx) return nullptr;
+    if (!g_w) return nullptr;
     for (auto &n : g_w->nodes) if (n->owns_ctx(ctx)) return n.get();
     return nullptr;
 }
@@ -1221,8 +1221,12 @@ void World::exec_api(int i, const Op &op) {
     if (op.kind == OP_A_REINIT) { // the daemon tears the interface down and brings it up again (new automata, new table) at the current time
         cur = &n; ledger_tag = 1; handling_base = now; sleep_accum = 0;
         glue_destroy(n.glue);
+        alloc_index = 0; allocfail_k = 0; allocfail_n = 1;
+        for (auto &ft : op.f) if (ft.kind == F_ALLOCFAIL) { allocfail_k = ft.a; allocfail_n = ft.b > 0 ? ft.b : 1; } // a constructor of the new instance finds no memory
         n.glue = glue_create(n.cfg.glue, n.ctx(), n.attr.mac.a, 0, 0);
+        allocfail_k = 0;
         n.usable = n.glue && glue_usable(n.glue);
+        if (n.glue) { glue_view tv; glue_view_get(n.glue, &tv); if (n.usable && !tv.have_table) note("api_reinit_without_session_table"); }
         cur = nullptr; ledger_tag = 0;
         glue_view v; glue_view_get(n.glue, &v);
         for (auto m : monitors) m->on_api(*this, i, op, v, v, 0);
